@@ -247,6 +247,32 @@ def load_known(pid):
 
 
 # ---------------------------------------------------------------- the check
+CASE_TIMEOUT = int(os.environ.get("VERIF_CASE_TIMEOUT", "300"))     # seconds for ONE case (normal: milliseconds to seconds)
+
+
+class _CaseTimeout(Exception):
+    pass
+
+
+def _with_alarm(seconds, fn):
+    """Run fn() under SIGALRM (worker processes and the main process run cases in their main thread): a changed solver that
+    never terminates becomes a failing case instead of hanging the check."""
+    import signal
+    import threading
+    if threading.current_thread() is not threading.main_thread():
+        return fn()
+
+    def handler(signum, frame):
+        raise _CaseTimeout()
+    old = signal.signal(signal.SIGALRM, handler)
+    signal.alarm(seconds)
+    try:
+        return fn()
+    finally:
+        signal.alarm(0)
+        signal.signal(signal.SIGALRM, old)
+
+
 def _harness_side(exc):
     """Exceptions that are about the machinery itself, never about the implementation's behaviour."""
     msg = str(exc)
@@ -353,7 +379,9 @@ class Prop:
         problem; an exception that never touched pylife is a bug of the harness and is re-raised (exit 2)."""
         self._known_seen = []
         try:
-            res = self.oracle(case)
+            res = _with_alarm(CASE_TIMEOUT, lambda: self.oracle(case))
+        except _CaseTimeout:
+            return (f"the implementation did not return within {CASE_TIMEOUT} s on this input", "does-not-terminate")
         except Exception as e:
             if _involves_implementation(e):
                 return (f"the implementation raises {type(e).__name__}: {str(e)[:300]}", "implementation-raises")
@@ -381,7 +409,9 @@ class Prop:
 
     def _impl_safe(self, case):
         try:
-            return self.impl_lines(case)
+            return _with_alarm(CASE_TIMEOUT, lambda: self.impl_lines(case))
+        except _CaseTimeout:
+            return [f"EXC does not return within {CASE_TIMEOUT} s"]
         except Exception as e:
             if _involves_implementation(e) or not _harness_side(e):
                 return [f"EXC {type(e).__name__}: {str(e)[:200]}"]
